@@ -333,8 +333,8 @@ func c18Codec(c *Ctx, dec *ssa.Function) {
 	if f := c.fn("pkg/vrf", "Proof.UnmarshalBinary"); f != nil && dec != nil {
 		fn := f.Function
 		b := ana.NewBuilder(c.P, fn)
-		cdec := "obj(alloc<ed.Scalar>, call<(*ed.Scalar).SetCanonicalBytes>(self, slice(obj(alloc<[32]byte>, call<builtin.copy>(slice(self, 0, 32), slice(p1, 32, 48))), 0, 32)))"
-		sdec := "obj(alloc<ed.Scalar>, call<(*ed.Scalar).SetCanonicalBytes>(self, slice(p1, 48, none)))"
+		cdec := "obj(call<ed.NewScalar>, call<(*ed.Scalar).SetCanonicalBytes>(self, slice(obj(alloc<[32]byte>, call<builtin.copy>(slice(self, 0, 32), slice(p1, 32, 48))), 0, 32)))"
+		sdec := "obj(call<ed.NewScalar>, call<(*ed.Scalar).SetCanonicalBytes>(self, slice(p1, 48, none)))"
 		g := []struct{ name, acc, rej string }{
 			{"length-80", "bin<==>(len(p1), 80)", "bin<!=>(len(p1), 80)"},
 			{"gamma-canonical", "bin<==>(ext#1(call<*>(slice(p1, 0, 32))), nil)", "bin<!=>(ext#1(call<*>(slice(p1, 0, 32))), nil)"},
@@ -417,7 +417,7 @@ func c18Hashes(c *Ctx, dec *ssa.Function) {
 			}
 			t := b.Of(e.Results[0], e.Instr)
 			want := "call<(hash.Hash).Sum>(obj(call<crypto/sha512.New>, " + hw(glob("suiteString")) + ", " + hw(glob("proofToHashDomainSeparatorFront")) + ", " +
-				hw("call<(*ed.Point).Bytes>(obj(alloc<ed.Point>, call<(*ed.Point).MultByCofactor>(self, load(faddr<gamma>(p0)))))") + ", " + hw(glob("proofToHashDomainSeparatorBack")) + "), slice(alloc<[64]byte>, 0, 0))"
+				hw("call<(*ed.Point).Bytes>(obj(alloc<ed.Point>, call<(*ed.Point).MultByCofactor>(self, load(faddr<gamma>(p0)))))") + ", " + hw(glob("proofToHashDomainSeparatorBack")) + "), nil)"
 			_, ok := ana.Match(want, t)
 			r.Check(ok, "C18.hash-from-gamma-only.term", c.ipos(e.Instr), "Hash() = SHA512(03 ‖ 03 ‖ (8·gamma).Bytes() ‖ 00): a function of gamma only %s", ana.Explain(want, t))
 		}
@@ -512,12 +512,12 @@ func c18Hashes(c *Ctx, dec *ssa.Function) {
 		fn := f.Function
 		b := ana.NewBuilder(c.P, fn)
 		hsk := "obj(alloc<[64]byte>, store(self, call<crypto/sha512.Sum512>(slice(p0, 0, 32))))"
-		x := "obj(alloc<ed.Scalar>, call<(*ed.Scalar).SetBytesWithClamping>(self, slice(" + hsk + ", 0, 32)))"
+		x := "obj(call<ed.NewScalar>, call<(*ed.Scalar).SetBytesWithClamping>(self, slice(" + hsk + ", 0, 32)))"
 		H := "call<*>(slice(p0, 32, none), p1)"
-		k := "obj(alloc<ed.Scalar>, call<(*ed.Scalar).SetUniformBytes>(self, call<(hash.Hash).Sum>(obj(call<crypto/sha512.New>, " + hw("slice("+hsk+", 32, none)") + ", " + hw("call<(*ed.Point).Bytes>("+H+")") + "), slice(alloc<[64]byte>, 0, 0))))"
+		k := "obj(call<ed.NewScalar>, call<(*ed.Scalar).SetUniformBytes>(self, call<(hash.Hash).Sum>(obj(call<crypto/sha512.New>, " + hw("slice("+hsk+", 32, none)") + ", " + hw("call<(*ed.Point).Bytes>("+H+")") + "), nil)))"
 		gamma := "obj(alloc<ed.Point>, call<(*ed.Point).ScalarMult>(self, " + x + ", " + H + "))"
 		cc := "call<*>(slice(p0, 32, none), call<(*ed.Point).Bytes>(" + H + "), " + gamma + ", obj(alloc<ed.Point>, call<(*ed.Point).ScalarBaseMult>(self, " + k + ")), obj(alloc<ed.Point>, call<(*ed.Point).ScalarMult>(self, " + k + ", " + H + ")))"
-		s := "obj(alloc<ed.Scalar>, call<(*ed.Scalar).SetUniformBytes>(self, _), call<(*ed.Scalar).MultiplyAdd>(self, " + cc + ", " + x + ", self))"
+		s := "obj(call<ed.NewScalar>, call<(*ed.Scalar).SetUniformBytes>(self, _), call<(*ed.Scalar).MultiplyAdd>(self, " + cc + ", " + x + ", self))"
 		want := "obj(alloc<" + vrfPkg + "Proof>, store(faddr<gamma>(self), " + gamma + "), store(faddr<c>(self), " + cc + "), store(faddr<s>(self), " + s + "))"
 		for _, e := range ana.Exits(fn) {
 			if e.Panic {
@@ -543,7 +543,7 @@ func c18Hashes(c *Ctx, dec *ssa.Function) {
 		}
 		for _, e := range ana.Exits(fn) {
 			if e.Panic {
-				es := plainEdges(edgesMatching(b, "bin<!=>(len(p0), 64)", "bin<!=>(ext#1("+strings.Replace(x, "$", "", -1)+"), nil)", "bin<!=>(ext#1(obj(alloc<ed.Scalar>, call<(*ed.Scalar).SetUniformBytes>(self, _))), nil)"))
+				es := plainEdges(edgesMatching(b, "bin<!=>(len(p0), 64)", "bin<!=>(ext#1("+strings.Replace(x, "$", "", -1)+"), nil)", "bin<!=>(ext#1(obj(call<ed.NewScalar>, call<(*ed.Scalar).SetUniformBytes>(self, _))), nil)"))
 				r.Check(mustPass(fn, e.Instr.Block(), es), "C18.hash-inputs.prove-panics", c.ipos(e.Instr), "Prove panics only for a private key that is not 64 bytes or on impossible scalar-setting errors")
 			}
 		}
